@@ -524,7 +524,7 @@ impl<T: TypeConfig> Transport<T> for SimTransport<T> {
         };
         let r = grpc_task_with_timeout_and_exponential_backoff("append_entries", closure, retry.append_entries).await?;
         let resp = r.into_inner();
-        self.net.oracle.lock().unwrap().on_append_response_delivered(self.me, peer_id, &resp);
+        self.net.oracle.lock().unwrap().on_append_response_delivered(self.me, peer_id, &resp, None);
         Ok(resp)
     }
 
@@ -655,11 +655,14 @@ impl<T: TypeConfig> Transport<T> for SimTransport<T> {
         let (req_tx, mut req_rx) = mpsc::channel::<AppendEntriesRequest>(128);
         let (out_tx, out_rx) = mpsc::channel::<std::result::Result<AppendEntriesResponse, Status>>(128);
 
+        // send times of the requests in flight on this stream (responses come back in request order)
+        let sent_q: Arc<Mutex<std::collections::VecDeque<u64>>> = Arc::new(Mutex::new(std::collections::VecDeque::new()));
         // client -> server pipe (FIFO with per-message delay)
         let (c2s_tx, mut c2s_rx) = mpsc::unbounded_channel::<(Instant, AppendEntriesRequest)>();
         {
             let net = net.clone();
             let st = st.clone();
+            let sent_q = sent_q.clone();
             tokio::spawn(async move {
                 let mut last = Instant::now();
                 while let Some(req) = req_rx.recv().await {
@@ -667,6 +670,7 @@ impl<T: TypeConfig> Transport<T> for SimTransport<T> {
                         break;
                     }
                     net.oracle.lock().unwrap().on_append_sent(me, peer_id, &req, cap);
+                    sent_q.lock().unwrap().push_back(crate::seams::vnow_ms());
                     let d = net.leg(me, peer_id, Kind::Append, false).unwrap_or(1);
                     let at = (Instant::now() + Duration::from_millis(d)).max(last);
                     last = at;
@@ -786,7 +790,8 @@ impl<T: TypeConfig> Transport<T> for SimTransport<T> {
                         break;
                     }
                     if let Ok(resp) = &r {
-                        net.oracle.lock().unwrap().on_append_response_delivered(me, peer_id, resp);
+                        let req_sent = sent_q.lock().unwrap().pop_front();
+                        net.oracle.lock().unwrap().on_append_response_delivered(me, peer_id, resp, req_sent);
                     }
                     let is_err = r.is_err();
                     if out_tx.send(r).await.is_err() {
